@@ -103,10 +103,10 @@ def run(res):
                  "blank lines inserted/deleted, already formatted) plus 6 tiny files; each through `stylua --check` in the json, unified, summary and standard formats; a pair is non-trivial when original <> formatted; "
                  "file names are unique per (input, mutation)" % len(KINDS),
             samples=samples or ["(no differing file)"], input_distribution=dict(mutations=dist, exit_codes=exit_codes, **tot),
-            correspondence="DiffJson.mismatches_at on similar's script with its own indices = the binary's JSON, all six fields; the extracted patchers applied to the binary's own JSON and unified output rebuild the library's formatted text; presence of a diff/listing iff the texts differ")
+            correspondence="DiffJson.mismatches (running positions) on similar's script = the binary's JSON, all six fields; the extracted patchers applied to the binary's own JSON and unified output rebuild the library's formatted text; presence of a diff/listing iff the texts differ")
         res.assumptions = ["`similar` returns a valid edit script (checked per file: its projections are the two texts); which script it picks is an oracle the theorems quantify over",
-                           "the reconstruction theorem assumes the DiffOp indices are the running positions; `similar` sometimes shifts an insert/delete across equal lines without renumbering "
-                           "(counted per run as scripts_with_shifted_indices) - for those files reconstruction rests on the extracted patcher applied to the binary's own output, not on the theorem",
+                           "`similar` sometimes shifts an insert/delete across equal lines without renumbering the other side's index (counted per run as scripts_with_shifted_indices); "
+                           "since the repair the builder counts positions itself, so the reconstruction theorem applies to every valid script",
                            "the unified-diff text parser in ml/drv_c18.ml (headers -> gaps, `\\ No newline` marker) is glue, not verified",
                            "ratio()==1.0 as the unified no-change test is exact only below ~2^24 lines (f32); not reachable with the inputs here"]
         if not proof["ok"] or not tie_ok:
